@@ -128,7 +128,21 @@ func GenMockSchema(r *R, idx int, o MockOpts) *MockSchema {
 		{Name: "tag", Number: 2, Kind: "string", Ann: ir.Ann{Examples: lex("string")}},
 		{Name: "leaves", Number: 3, Kind: "message", TypeName: P + "Leaf", Card: "repeated"},
 	}}
-	f.Messages = []*ir.Message{leaf, topInner, deep}
+	// recursive types: self reference (singular, map value, repeated) and a mutual pair
+	tree := &ir.Message{Name: "Tree", Fields: []*ir.Field{
+		{Name: "label", Number: 1, Kind: "string", Ann: ir.Ann{Examples: lex("string")}},
+		{Name: "left", Number: 2, Kind: "message", TypeName: P + "Tree"},
+		{Name: "by_name", Number: 3, Kind: "message", TypeName: P + "Tree", Card: "map", MapKey: "string"},
+		{Name: "items", Number: 4, Kind: "message", TypeName: P + "Tree", Card: "repeated"},
+		{Name: "twin", Number: 5, Kind: "message", TypeName: P + "Twin"},
+		{Name: "leaf", Number: 6, Kind: "message", TypeName: P + "Leaf"},
+	}}
+	twin := &ir.Message{Name: "Twin", Fields: []*ir.Field{
+		{Name: "tree", Number: 1, Kind: "message", TypeName: P + "Tree", Card: "optional"},
+		{Name: "weight", Number: 2, Kind: "int64", Ann: ir.Ann{Examples: lex("int64")}},
+		{Name: "leaf", Number: 3, Kind: "message", TypeName: P + "Leaf"},
+	}}
+	f.Messages = []*ir.Message{leaf, topInner, deep, tree, twin}
 	reqm := &ir.Message{Name: "Req", Fields: []*ir.Field{{Name: "q", Number: 1, Kind: "string"}, {Name: "num", Number: 2, Kind: "int32"}}}
 	qreq := &ir.Message{Name: "QReq", Fields: []*ir.Field{{Name: "q", Number: 1, Kind: "string", Ann: ir.Ann{Query: &ir.Query{Name: "q"}}}}}
 	f.Messages = append(f.Messages, reqm, qreq)
@@ -166,7 +180,7 @@ func GenMockSchema(r *R, idx int, o MockOpts) *MockSchema {
 				*tags = append(*tags, "field:"+k+"/singular")
 				add(&ir.Field{Name: name, Kind: k, Ann: ir.Ann{Examples: ex(k, 3)}})
 			case choice < 46: // message children
-				ty := Pick(r, []string{"Leaf", "Deep", "Inner", resp.Name + ".Inner", resp.Name + ".Detail"})
+				ty := Pick(r, []string{"Leaf", "Deep", "Inner", resp.Name + ".Inner", resp.Name + ".Detail", "Tree", "Twin"})
 				card := Pick(r, []string{"", "", "optional", "repeated"})
 				*tags = append(*tags, "field:message/"+orSingular(card), "child:"+ty)
 				add(&ir.Field{Name: uniqueName(used, Pick(r, []string{"home", "main", "child", "part", "item"})), Kind: "message", TypeName: P + ty, Card: card})
@@ -174,7 +188,7 @@ func GenMockSchema(r *R, idx int, o MockOpts) *MockSchema {
 				vk := Pick(r, []string{"string", "int32", "int64", "bool", "float", "double", "message"})
 				fl := &ir.Field{Name: uniqueName(used, Pick(r, []string{"attrs", "by_key", "index", "lookup"})), Kind: vk, Card: "map", MapKey: Pick(r, mockMapKeys)}
 				if vk == "message" {
-					fl.TypeName = P + Pick(r, []string{"Leaf", "Inner", resp.Name + ".Detail"})
+					fl.TypeName = P + Pick(r, []string{"Leaf", "Inner", resp.Name + ".Detail", "Tree"})
 				}
 				*tags = append(*tags, "field:map<"+fl.MapKey+","+vk+">")
 				add(fl)
@@ -316,7 +330,8 @@ func MockMatrixSchema(kind, card, mapKey string, examples []string) *ir.Request 
 	return &ir.Request{Files: []*ir.File{f}, Generate: []string{f.Name}}
 }
 
-// MockRecursiveSchemas are accepted schemas whose response type reaches itself.
+// MockRecursiveSchemas are accepted schemas whose response type reaches itself (small graphs only:
+// the emitter's work still grows exponentially on DAG-shaped types, which is C16's subject).
 func MockRecursiveSchemas() map[string]*ir.Request {
 	mk := func(msgs ...*ir.Message) *ir.Request {
 		pkg := "rec.v1"
@@ -331,7 +346,18 @@ func MockRecursiveSchemas() map[string]*ir.Request {
 		"mutual": mk(&ir.Message{Name: "Node", Fields: []*ir.Field{{Name: "edge", Number: 1, Kind: "message", TypeName: P + "Edge"}}},
 			&ir.Message{Name: "Edge", Fields: []*ir.Field{{Name: "to", Number: 1, Kind: "message", TypeName: P + "Node", Card: "optional"}}}),
 		"map_value": mk(&ir.Message{Name: "Node", Fields: []*ir.Field{{Name: "kids", Number: 1, Kind: "message", TypeName: P + "Node", Card: "map", MapKey: "string"}}}),
-		// recursion through a repeated field only: the emitter skips repeated message fields, so it terminates
+		"oneof_member": mk(&ir.Message{Name: "Node", Oneofs: []*ir.Oneof{{Name: "pick"}}, Fields: []*ir.Field{{Name: "label", Number: 1, Kind: "string"},
+			{Name: "next", Number: 2, Kind: "message", TypeName: P + "Node", Oneof: "pick"}, {Name: "other", Number: 3, Kind: "uint32", Oneof: "pick"}}}),
+		"with_examples": mk(&ir.Message{Name: "Node", Fields: []*ir.Field{
+			{Name: "label", Number: 1, Kind: "string", Ann: ir.Ann{Examples: []string{"root", "héllo"}}},
+			{Name: "count", Number: 2, Kind: "int64", Ann: ir.Ann{Examples: []string{"7", "-3"}}},
+			{Name: "next", Number: 3, Kind: "message", TypeName: P + "Node"},
+			{Name: "kids", Number: 4, Kind: "message", TypeName: P + "Node", Card: "map", MapKey: "int32"},
+			{Name: "items", Number: 5, Kind: "message", TypeName: P + "Node", Card: "repeated"},
+			{Name: "maybe", Number: 6, Kind: "message", TypeName: P + "Node", Card: "optional"}}}),
+		"via_nested": mk(&ir.Message{Name: "Node", Nested: []*ir.Message{{Name: "Inner", Fields: []*ir.Field{{Name: "back", Number: 1, Kind: "message", TypeName: P + "Node"}, {Name: "ok", Number: 2, Kind: "bool"}}}},
+			Fields: []*ir.Field{{Name: "inner", Number: 1, Kind: "message", TypeName: P + "Node.Inner"}, {Name: "label", Number: 2, Kind: "string"}}}),
+		// recursion through a repeated field only: the emitter skips repeated message fields
 		"repeated_only": mk(&ir.Message{Name: "Node", Fields: []*ir.Field{{Name: "label", Number: 1, Kind: "string"}, {Name: "kids", Number: 2, Kind: "message", TypeName: P + "Node", Card: "repeated"}}}),
 	}
 }
